@@ -24,6 +24,18 @@ def _run(binp, args, timeout=1800):
             except Exception: pass
     return p.returncode, recs, p.stderr[-400:]
 
+PIE_BOUNDS = {'quick': ['pie', '--programs', '20000', '--hist', '10'],
+              'thorough': ['pie', '--programs', '250000', '--hist', '14']}
+# the validation-trace obligations of the pie engine rest on three properties at once (C02: order + only-if-inconsistent,
+# C08: the dependencies held are those of the latest execution, C09: each decided by its own checker); a trace that breaks
+# one of these clauses cannot, from outside, be told apart from one that breaks the neighbouring clause
+TRACE = ('C09.bounded.every_dependency_is_decided_by_its_own_checker', 'C02.bounded.dependencies_validated_in_creation_order',
+         'C08.bounded.validated_dependencies_are_those_of_the_latest_execution', 'C09.bounded.check_uses_checker_and_stamp_of_the_dependency')
+PIE_ALSO = {
+    'C02': TRACE,
+    'C08': TRACE + ('C02.bounded.executes_only_what_a_from_scratch_build_executes', 'C02.bounded.requiring_again_executes_nothing'),
+    'C09': TRACE + ('C02.bounded.executed_only_if_a_dependency_is_inconsistent',),
+}
 GRAPH_BOUNDS = {'quick': ['graph', '--k', '3', '--l', '4', '--random', '4000', '--len', '14'],
                 'thorough': ['graph', '--k', '4', '--l', '4', '--random', '60000', '--len', '18']}
 
@@ -38,16 +50,21 @@ ALSO = {
     'C16': ('C10.bounded.ranks_bijection_onto_1_n', 'C11.bounded.get_outgoing_edges_in_insertion_order_with_data', 'C11.bounded.get_incoming_edges_in_insertion_order_with_data'),
 }
 
+def _pie_case(r):
+    return {'engine': 'pie', 'rerun': r['rerun'], 'what': r['what'], 'case': r.get('case', '')}
+
 def run(here, repo, pid, names, tier, seed):
-    """names: ['graph'] -> bounded enumeration of the graph crate; violations whose property == pid are reported."""
-    out = {'report': {}, 'undecided': [], 'violations': []}
+    """names: 'graph' -> bounded enumeration of the graph crate; 'pie' -> bounded exploration of the pie crate through its
+    public API.  Violations whose property == pid (or whose obligation the property rests on) are reported."""
+    out = {'report': {}, 'undecided': [], 'violations': [], 'aux': []}
     binp, err = _build(here, repo)
     if binp is None:
         out['undecided'].append('bounded stand-in does not build against the current tree: ' + err); return out
     for name in names:
-        if name != 'graph': continue
+        if name not in ('graph', 'pie'): continue
         t0 = time.time()
-        args = GRAPH_BOUNDS['thorough' if tier == 'thorough' else 'quick'] + ['--seed', str(seed or 1)]
+        bounds = GRAPH_BOUNDS if name == 'graph' else PIE_BOUNDS
+        args = bounds['thorough' if tier == 'thorough' else 'quick'] + ['--seed', str(seed or 1)]
         try:
             rc, recs, err = _run(binp, args)
         except subprocess.TimeoutExpired:
@@ -56,33 +73,59 @@ def run(here, repo, pid, names, tier, seed):
         vio = [r for r in recs if r.get('violation')]
         out['report'][name] = {'label': 'bounded (not a proof)', 'bound': ' '.join(args), 'summary': summ[0] if summ else None,
                                'violations_found': len(vio), 'wall_s': round(time.time() - t0, 1),
-                               'stands_in_for': 'R6 adapter-chain getters (get_incoming/outgoing_*, iter_unsorted, descendants constructor) and cross-check of the contracts'}
+                               'stands_in_for': ('R6 adapter-chain getters (get_incoming/outgoing_*, iter_unsorted, descendants constructor) and cross-check of the contracts'
+                                                 if name == 'graph' else
+                                                 'the functions not under contract (bottom-up context, Tracking bodies, ResourceDependency::check/is_consistent, SessionInternal::require, trait-object identity) '
+                                                 'and the composition of the per-function contracts over whole builds; random well-formed task programs and histories on the real crate, '
+                                                 'checked against a from-scratch build on a fresh instance and against a model of the recorded dependencies rebuilt from the event stream')}
         if not summ and not vio:
             out['undecided'].append('bounded stand-in produced no summary: ' + err)
+        also = (ALSO if name == 'graph' else PIE_ALSO).get(pid, ())
         for r in vio:
-            if r['property'] == pid or r['obligation'] in ALSO.get(pid, ()):
-                out['violations'].append({'obligation': r['obligation'], 'unit': 'bounded:graph', 'backend': 'bounded enumeration of the real crate',
-                                          'diagnostics': [{'message': r['what'], 'at': [json.dumps(r['ops'])], 'gen_lines': []}],
-                                          'concrete_input': {'engine': 'graph', 'ops': r['ops'], 'what': r['what']}, 'site': json.dumps(r['ops'])})
+            if r['property'] == pid or r['obligation'] in also:
+                if name == 'graph':
+                    out['violations'].append({'obligation': r['obligation'], 'unit': 'bounded:graph', 'backend': 'bounded enumeration of the real crate',
+                                              'diagnostics': [{'message': r['what'], 'at': [json.dumps(r['ops'])], 'gen_lines': []}],
+                                              'concrete_input': {'engine': 'graph', 'ops': r['ops'], 'what': r['what']}, 'site': json.dumps(r['ops'])})
+                else:
+                    out['violations'].append({'obligation': r['obligation'], 'unit': 'bounded:pie', 'backend': 'bounded exploration of the real crate',
+                                              'diagnostics': [{'message': r['what'], 'at': [r['rerun']], 'gen_lines': []}],
+                                              'concrete_input': _pie_case(r), 'site': r['rerun']})
+            else:
+                out['aux'].append('%s (reported under %s): %s' % (r['obligation'], r['property'], r['what'][:200]))
     return out
 
 def search_counterexample(here, repo, pid, obligation):
-    """When a Verus obligation of the graph unit fails: look for a concrete failing operation sequence on the real crate."""
-    if not (obligation.split('.')[0] in ('C10', 'C11', 'C07', 'C16', 'C02')): return None
+    """When a Verus obligation fails: look for a concrete failing operation sequence / build history on the real crate."""
     binp, err = _build(here, repo)
     if binp is None: return None
+    if obligation.split('.')[0] in ('C10', 'C11', 'C07', 'C16', 'C02'):
+        try:
+            rc, recs, err = _run(binp, GRAPH_BOUNDS['quick'] + ['--seed', '1'], timeout=900)
+            vio = [r for r in recs if r.get('violation')]
+            if vio:
+                r = vio[0]
+                return {'engine': 'graph', 'ops': r['ops'], 'what': r['what'], 'found_for': r['obligation']}
+        except subprocess.TimeoutExpired:
+            pass
+    if len(obligation.split('.')) > 1 and obligation.split('.')[1] in ('graph', 'add_edge', 'add_node', 'remove_node', 'remove_edge', 'descendants', 'descendants_unsorted'):
+        return None
     try:
-        rc, recs, err = _run(binp, GRAPH_BOUNDS['quick'] + ['--seed', '1'], timeout=900)
+        rc, recs, err = _run(binp, PIE_BOUNDS['quick'] + ['--seed', '1'], timeout=900)
     except subprocess.TimeoutExpired:
         return None
     vio = [r for r in recs if r.get('violation')]
-    if not vio: return None
-    r = vio[0]
-    return {'engine': 'graph', 'ops': r['ops'], 'what': r['what'], 'found_for': r['obligation']}
+    mine = [r for r in vio if r['property'] == pid or r['obligation'] in PIE_ALSO.get(pid, ())] or vio
+    if not mine: return None
+    c = _pie_case(mine[0]); c['found_for'] = mine[0]['obligation']
+    return c
 
 def replay_case(here, repo, pid, case):
-    if case.get('engine') != 'graph': return True, 'no replay engine for this case'
+    if case.get('engine') not in ('graph', 'pie'): return True, 'no replay engine for this case'
     binp, err = _build(here, repo)
     if binp is None: return True, 'replay binary does not build: ' + err
-    rc, recs, err = _run(binp, ['replay', json.dumps(case['ops'], separators=(',', ':'))])
+    if case['engine'] == 'graph':
+        rc, recs, err = _run(binp, ['replay', json.dumps(case['ops'], separators=(',', ':'))])
+    else:
+        rc, recs, err = _run(binp, case['rerun'].split())
     return rc == 0, json.dumps(recs)
